@@ -1,6 +1,7 @@
 package main
 
 import (
+	"os"
 	"fmt"
 	"go/constant"
 	"go/token"
@@ -103,6 +104,7 @@ type Exec struct {
 	choices  []ChoiceRec
 	rangeConds []rangeCond
 	noRange  bool
+	dlog     []string
 }
 
 func (ex *Exec) newObj(v Value, t types.Type) *Object {
@@ -192,6 +194,13 @@ func (ex *Exec) Branch(c *Term) bool {
 		}
 	}
 	ex.trace = append(ex.trace, d)
+	if debugTrace {
+		cs := c.String()
+		if len(cs) > 160 {
+			cs = cs[:160] + "..."
+		}
+		ex.dlog = append(ex.dlog, fmt.Sprintf("%d @%s: %s", d, ex.where(), cs))
+	}
 	if d == 1 {
 		ex.assume(c)
 		return true
@@ -199,6 +208,8 @@ func (ex *Exec) Branch(c *Term) bool {
 	ex.assume(Not(c))
 	return false
 }
+
+var debugTrace = os.Getenv("VERIF_TRACE") != ""
 
 // Choose makes an exhaustive concrete case split 0..n-1.
 func (ex *Exec) Choose(n int) int {
